@@ -19,7 +19,7 @@ func configs(quick bool) []tsssig.Cfg {
 			// signing_period reduced / restored by governance while attempts are in flight
 			{N: 3, T: 2, SigningPeriod: 3, MaxSigningAttempt: 2, MaxDESize: 4, InitDE: 3, MaxReq: 2, Depth: 8, Events: []string{"req", "sig", "period", "block"}, FeePerSigner: 10},
 			// max_signing_attempt lowered / restored by governance while attempts are in flight
-			{N: 3, T: 2, SigningPeriod: 1, MaxSigningAttempt: 3, MaxDESize: 5, InitDE: 4, MaxReq: 1, Depth: 8, Events: []string{"req", "sig", "maxatt", "block"}, FeePerSigner: 10},
+			{N: 4, T: 2, SigningPeriod: 1, MaxSigningAttempt: 3, MaxDESize: 5, InitDE: 4, MaxReq: 1, Depth: 8, Events: []string{"req", "sig", "maxatt", "block"}, FeePerSigner: 10},
 			// threshold = group size: every member is needed, an unavailable one makes the signing fall
 			{N: 2, T: 2, SigningPeriod: 1, MaxSigningAttempt: 3, MaxDESize: 4, InitDE: 3, MaxReq: 2, Depth: 7, Events: ev, FeePerSigner: 10},
 		}
